@@ -436,6 +436,47 @@ func DiscoverBus(p *Prog) *BusRoles {
 			r.DispatchFn = invoker
 		}
 	}
+	// persist function, by role: the function PublishContext calls whose static call tree
+	// (in the package) contains the EventStore.Append invocation — so extracting the
+	// append into a helper does not move the role
+	if r.PublishFn != nil {
+		hasAppend := func(g *ssa.Function) bool {
+			for _, b := range g.Blocks {
+				for _, in := range b.Instrs {
+					if ci, ok := in.(ssa.CallInstruction); ok {
+						c := ci.Common()
+						if c.IsInvoke() && c.Method.Name() == "Append" && isNamed(c.Value.Type(), PkgBus, "EventStore") {
+							return true
+						}
+					}
+				}
+			}
+			return false
+		}
+		for _, b := range r.PublishFn.Blocks {
+			for _, in := range b.Instrs {
+				ci, ok := in.(ssa.CallInstruction)
+				if !ok {
+					continue
+				}
+				sc := ci.Common().StaticCallee()
+				if sc == nil {
+					continue
+				}
+				if o := sc.Origin(); o != nil {
+					sc = o
+				}
+				if PkgOf(sc) != PkgBus || sc.Parent() != nil {
+					continue
+				}
+				for _, g := range reachFuncs(p, sc, PkgBus) {
+					if hasAppend(g) {
+						r.PersistFn = sc
+					}
+				}
+			}
+		}
+	}
 	if r.UpRegT != nil {
 		un := r.UpRegT.Obj().Name()
 		for _, f := range p.FuncsIn(PkgBus) {
